@@ -215,6 +215,16 @@ ApiModel buildApiModel(uint64_t seed, int variant, const ApiOpts* optsIn) {
 				std::vector<std::unordered_map<uint16_t, float>> bw((size_t)nb);
 				for (int v = 0; v < nv; v++)
 					for (auto& p : W[(size_t)v]) bw[(size_t)p.first][(uint16_t)v] = p.second;
+				if (o.junkWeights && nb > 1) {
+					static const float JUNK[] = {std::numeric_limits<float>::quiet_NaN(), -0.5f, 0.0f, 5e-5f, -std::numeric_limits<float>::quiet_NaN()};
+					Rng jr(mix(seed, 0x7A2C + (uint64_t)s));
+					for (int v = 0; v < nv; v++) {
+						if (!jr.coin(5)) continue;
+						int b = (int)jr.below((uint32_t)nb);
+						if (bw[(size_t)b].count((uint16_t)v)) continue;   // only where the vertex has no real weight for that bone
+						bw[(size_t)b][(uint16_t)v] = JUNK[jr.below(5)];
+					}
+				}
 				for (int b = 0; b < nb; b++) nif.SetShapeBoneWeights(name, (uint32_t)b, bw[(size_t)b]);
 			}
 			if (fo4 || ver.IsSSE()) {
@@ -419,6 +429,23 @@ NiShape* toStripsSameTriangles(NifFile& nif, NiShape* shape, Rng& rng) {
 	hdr.ReplaceBlock(dataId, std::move(sd));
 	sRaw->SetGeomData(sdRaw);
 	return sRaw;
+}
+
+int dropPartitionFaces(NifFile& nif) {
+	int changed = 0;
+	auto& hdr = nif.GetHeader();
+	if (!hdr.GetVersion().IsSSE()) return 0;
+	for (uint32_t b = 0; b < hdr.GetNumBlocks(); b++) {
+		auto sp = hdr.GetBlock<NiSkinPartition>(b);
+		if (!sp || sp->bMappedIndices) continue;
+		sp->PrepareTrueTriangles();
+		for (auto& p : sp->partitions) {
+			if (p.numStrips || p.trueTriangles.empty()) continue;
+			p.hasFaces = false;
+			changed++;
+		}
+	}
+	return changed;
 }
 
 void addTexturingProperty(NifFile& nif, NiShape* shape, Rng& rng, const std::vector<std::string>& paths) {
